@@ -261,4 +261,23 @@ def IsSegmentation (cs : List Bytes) (stream : Bytes) : Prop :=
   cs.flatten = stream ∧ ∀ c ∈ cs, c ≠ []
 
 
+/-! ## Concurrent `Write` calls
+
+`Transport.Write` takes no lock; what two goroutines write at the same time reaches the peer as
+some interleaving of pieces of the two byte strings (each implementation serialises at its own
+granularity: the whole call for a descriptor, one ssh packet for `crypto/ssh`). `IsMerge a b m`:
+`m` is such an interleaving — `a` and `b` each appear in `m` once and in order, nothing else does. -/
+
+inductive IsMerge : Bytes → Bytes → Bytes → Prop
+  | nil : IsMerge [] [] []
+  | left (x : UInt8) {a b m : Bytes} : IsMerge a b m → IsMerge (x :: a) b (x :: m)
+  | right (x : UInt8) {a b m : Bytes} : IsMerge a b m → IsMerge a (x :: b) (x :: m)
+
+/-- the harness tags writer A with bytes < 0x80 and writer B with bytes ≥ 0x80 -/
+def lowByte (x : UInt8) : Bool := decide (x < 128)
+
+/-- executable verdict: both projections of `m` are the writers' strings -/
+def mergeVerdict (a b m : Bytes) : Bool :=
+  m.filter lowByte == a && m.filter (fun x => !lowByte x) == b
+
 end Scrapli.Pipe
